@@ -17,9 +17,11 @@ at return):
              closed-form gradient g; the multipliers at which its volume meets the target are located by an
              independent multisection; as the final bracket of the code is at most l1l2tol wide and contains
              such a multiplier, monotonicity gives  vol(lam_hi+tol) <= sum(x_new) <= vol(lam_lo-tol);
- * write-back: every signal keeps its size; consecutive evaluated designs differ; each signal's state lies
-             component-wise inside the same monotone bracket of *its* slice of the OC step (a stale or permuted
-             slice is reported, any other discrepancy is only counted);
+ * write-back: every signal keeps its size at every response and at return; consecutive evaluated designs differ
+             (a further response is only reached through a step >= tolx > 0); where the total volume is inside its
+             bracket, each signal's state must lie component-wise inside the same monotone bracket
+             [x_i(lam_hi+tol), x_i(lam_lo-tol)] of *its* slice of the OC step (stale, swapped, shifted or re-ordered
+             slices conserve the volume and are invisible to the other clauses when bounds are uniform);
  * convergence (sum c_i/x_i only): the design at return lies component-wise between the analytic optima
              clip(sqrt(c_i/lam)) for lam = lam* +- l1l2tol (plus tolx*|x| when the run stopped on the step size)."""
 import itertools
@@ -50,23 +52,27 @@ ASSUMPTIONS = [
     "bisection tolerance: the returned multiplier is within l1l2tol of a multiplier at which the model volume equals the "
     "target up to delta=1e-12*(1+sum|upper|) (rounding of the volume sum); hence vol(lam_hi+tol)-delta <= sum(x) <= "
     "vol(lam_lo-tol)+delta, and the same component-wise with eps=1e-12*(1+|x_i|)",
+    "write-back is judged slice-wise against the same reference family: signal i must hold entries cum[i]:cum[i+1] of the "
+    "concatenated OC step (C-order flattening of N-D states), within the component-wise bracket; reported only when the "
+    "total volume is inside its bracket (otherwise the volume mechanism already reports the step)",
     "maxvol=None means the volume of the initial design",
     "convergence is judged for f=sum c_i/x_i (c_i>0, possibly behind a positive diagonal scaling) when the target volume "
     "is feasible (>= sum xmin): at return the design must satisfy x*_i(lam*+tol)-s <= x_i <= x*_i(lam*-tol)+s with "
     "s = 1e-12*(1+|x_i|) (+ tolx*||x|| when the run ended by a stopping criterion). Derivation: a step that is not "
     "move-limited equals x*(lam_c) with |lam_c-lam*|<=tol because clipping is monotone and 1-Lipschitz. A run that ends "
     "by maxit while still move-limited is a violation only in block 'conv' whose budget is 3*ceil(max(xmax-xmin)/move)+30 "
-    "iterations (the unchanged tree needs at most ceil(max|x0-x*|/move)+3, measured); a run stopped by tolf>0 right "
+    "iterations (measured on the unchanged tree: at most 1.3*ceil(max|x0-x*|/move)+7 responses; histogram in counter conv_iterations_over_distance); a run stopped by tolf>0 right "
     "after a move-limited step is not judged",
     "objective values are non-zero and finite on the box; tolx > 0",
 ]
-FLOORS = {"quick": {"cases_held": 700, "distinct_nontrivial": 250, "designs_checked": 6000, "entries_bounds": 40000,
-                    "steps_volume_judged": 4000, "conv_runs_judged": 200, "conv_components": 1500,
-                    "writeback_slices_compared": 8000, "steps_positive_gradient": 300, "final_unrecorded_designs": 100},
-          "thorough": {"cases_held": 15000, "distinct_nontrivial": 1500, "designs_checked": 150000,
-                       "entries_bounds": 1000000, "steps_volume_judged": 100000, "conv_runs_judged": 5000,
-                       "conv_components": 40000, "writeback_slices_compared": 200000,
-                       "steps_positive_gradient": 8000, "final_unrecorded_designs": 2500}}
+FLOORS = {"quick": {"cases_held": 1200, "distinct_nontrivial": 1000, "designs_checked": 25000, "entries_bounds": 200000,
+                    "steps_volume_judged": 17000, "oc_step_components_compared": 140000, "conv_runs_judged": 260,
+                    "conv_components": 1800, "writeback_slices_compared": 60000, "steps_positive_gradient": 5000,
+                    "final_unrecorded_designs": 400},
+          "thorough": {"cases_held": 25000, "distinct_nontrivial": 15000, "designs_checked": 550000,
+                       "entries_bounds": 5000000, "steps_volume_judged": 360000, "oc_step_components_compared": 3700000,
+                       "conv_runs_judged": 6000, "conv_components": 57000, "writeback_slices_compared": 1400000,
+                       "steps_positive_gradient": 130000, "final_unrecorded_designs": 9000}}
 TIMEOUT_CASE = 120
 TIMEOUT_SHARD = {"quick": 900, "thorough": 5400}
 
